@@ -541,9 +541,9 @@ def priorities(seed):
             ops.append(f"addh name={name} prio={prio} params={recv} body={'take' if taker else ''}")
         if r.random() < 0.12:
             # ordinary function handlers through the wrapper glue; re-adding a function returns the existing handler
-            ops.append(f"addfn {r.choice(['fn0', 'fn1', 'fn2', 'fn3'])} {r.choice(['plain', 'high', 'low', 'notid'])}")
+            ops.append(f"addfn {r.choice(['fn0', 'fn1', 'fn2', 'fn3', 'fn4', 'fn5'])} {r.choice(['plain', 'high', 'low', 'notid'])}")
         if r.random() < 0.05:
-            ops.append(f"rmh {r.choice(['fn0', 'fn1', 'fn2', 'fn3'])}")
+            ops.append(f"rmh {r.choice(['fn0', 'fn1', 'fn2', 'fn3', 'fn4', 'fn5'])}")
         if r.random() < 0.15:
             ops.append("send G1")
         if timing == 1 and step == 2:
@@ -604,7 +604,7 @@ def cascade(seed):
         elif x < 0.5:
             ops.append(f"rmev {r.choice(USER_G + USER_T + ['Despawn', 'InsK0', 'RemK1', 'Spawn'])}")
         elif x < 0.55:
-            ops.append(f"addfn {r.choice(['fn0', 'fn1', 'fn2', 'fn3'])} {r.choice(['plain', 'high', 'low', 'notid'])}")
+            ops.append(f"addfn {r.choice(['fn0', 'fn1', 'fn2', 'fn3', 'fn4', 'fn5'])} {r.choice(['plain', 'high', 'low', 'notid'])}")
         elif x < 0.6:
             recv = r.choice(CASC) if observers else None
             ops.append(rand_handler(ctx, recv=recv, allow_panic=0, tid=(r.randrange(3) if r.random() < 0.3 else None),
